@@ -562,7 +562,7 @@ def exRecord (ts tid debugid : Nat) (data : Bytes) : Bytes :=
 /-- thread 7 declared twice by the map (the later entry wins); it announces thread 9 of pid 50 and names it "new";
     thread 8 is never declared; four bytes of padding. -/
 def exFile : V2File :=
-  ⟨[⟨7, 41, [111, 108, 100]⟩, ⟨7, 42, [108, 97, 117, 110, 99, 104, 100]⟩], 4,
+  ⟨[⟨7, 41, [111, 108, 100], [120, 0, 255]⟩, ⟨7, 42, [108, 97, 117, 110, 99, 104, 100], []⟩], 4,
    [exRecord 1 7 0x7010010 [120], exRecord 2 7 0x7000004 (toLE 8 9 ++ toLE 8 50), exRecord 3 9 0x7010010 [121],
     exRecord 4 7 0x7010004 [110, 101, 119], exRecord 5 9 0x7010010 [122], exRecord 6 8 0x7010010 [123]], 1, 24000000⟩
 
